@@ -972,7 +972,13 @@ class Executor:
         if it:
             test = Z(hst.env[it[0]]) < Z(it[2])
         else:
-            test = Zb(hev.eval(n.test))
+            tv = hev.eval(n.test)
+            th = self.contract.handlers.get("truthiness")
+            if th is not None and not isinstance(tv, bool) and not (is_z3(tv) and z3.is_bool(tv)):
+                r = th(self, hst, tv)           # `while obj:` on a contract-side value
+                if r is not NotImplemented:
+                    tv = r
+            test = Zb(tv)
         if n.orelse:
             raise Outside("loop else")
         # body branch
@@ -1622,7 +1628,16 @@ class Evaluator:
     # -- calls -----------------------------------------------------------------------------
     def e_Call(self, n):
         f = self.eval(n.func)
-        args = [self.eval(a) for a in n.args]
+        args = []
+        for a in n.args:
+            if isinstance(a, ast.Starred):
+                v = self.eval(a.value)
+                if isinstance(v, (tuple, list)):
+                    args.extend(v)                 # f(*seq) with a sequence of known length
+                else:
+                    args.append(StarArgs(v))       # a symbolic argument tuple, passed on as a whole
+            else:
+                args.append(self.eval(a))
         kwargs = {}
         for kw in n.keywords:
             v = self.eval(kw.value)
@@ -1814,6 +1829,13 @@ class Method:
 class SpecFn:
     def __init__(self, fn):
         self.fn = fn
+
+
+class StarArgs:
+    """f(*v) where v is not a sequence of known length: the contract's handler sees the value as one argument of this type"""
+
+    def __init__(self, value):
+        self.value = value
 
 
 class PyCallable:
